@@ -156,3 +156,21 @@ package interp
 //@   ensures constant-index-below-the-length: err == nil && n.rval.IsValid() && max >= 1 ==> vInt(n.rval) < max
 //@   ensures constant-index-not-negative: err == nil && n.rval.IsValid() ==> vInt(n.rval) >= 0
 //@   canary err == nil
+
+// a[low:high:max]: the bounds that are known at compile time are ordered, EVERY pair of them
+// (low <= high, low <= max, high <= max), whatever the other bound is.
+//@ pred ordered2(x, y): !(x > 0 && y >= 0 && x > y)
+//@ func (check typecheck) sliceExpr(n) (err)
+//@   props C12
+//@   ints math
+//@   opt safety = off
+//@   opt opaque-calls = *
+//@   opt opaque-havoc = none
+//@   requires [assume] n != nil && len(n.child) >= 1 && n.child[0] != nil && n.child[0].typ != nil
+//@   ensures [local:ind] known-bounds-pairwise-ordered: err == nil ==> ordered2(ind[0], ind[1]) && ordered2(ind[0], ind[2]) && ordered2(ind[1], ind[2])
+//@   loop 1
+//@   loop 2
+//@   loop 3 index i
+//@   invariant earlier-bounds-ordered-with-all-later-ones: forall(a, 0, i, forall(b, a+1, 3, ordered2(ind[a], ind[b])))
+//@   loop 4 index j
+//@   invariant this-bound-ordered-with-the-later-ones-seen: forall(b, i+1, i+1+j, ordered2(x, ind[b])) && x == ind[i] && x > 0
